@@ -36,7 +36,6 @@ pub mod address {
     use std::net::SocketAddr;
     use std::net::SocketAddrV4;
     use std::net::SocketAddrV6;
-    use std::string::FromUtf8Error;
 
     use tokio_util::bytes::Buf;
     use tokio_util::bytes::BufMut;
@@ -74,16 +73,28 @@ pub mod address {
         Ok(())
     }
 
-    pub fn read_address_port(buf: &mut Bytes) -> Result<Address, FromUtf8Error> {
+    pub fn read_address_port(buf: &mut Bytes) -> anyhow::Result<Address> {
+        fn require(buf: &Bytes, len: usize) -> anyhow::Result<()> {
+            if buf.remaining() < len { anyhow::bail!("incomplete address, expecting {} bytes, but found {} bytes", len, buf.remaining()) } else { Ok(()) }
+        }
+        require(buf, 3)?;
         let port = buf.get_u16();
-        let addr_type = AddressType::new(buf.get_u8());
+        let addr_type = AddressType::new(buf.get_u8())?;
         match addr_type {
-            AddressType::Ipv4 => Ok(Address::from(SocketAddr::V4(SocketAddrV4::new(Ipv4Addr::from(buf.get_u32()), port)))),
+            AddressType::Ipv4 => {
+                require(buf, 4)?;
+                Ok(Address::from(SocketAddr::V4(SocketAddrV4::new(Ipv4Addr::from(buf.get_u32()), port))))
+            }
             AddressType::Domain => {
+                require(buf, 1)?;
                 let length = buf.get_u8() as usize;
+                require(buf, length)?;
                 Ok(Address::Domain(String::from_utf8(buf.copy_to_bytes(length).to_vec())?, port))
             }
-            AddressType::Ipv6 => Ok(Address::from(SocketAddr::V6(SocketAddrV6::new(Ipv6Addr::from(buf.get_u128()), port, 0, 0)))),
+            AddressType::Ipv6 => {
+                require(buf, 16)?;
+                Ok(Address::from(SocketAddr::V6(SocketAddrV6::new(Ipv6Addr::from(buf.get_u128()), port, 0, 0))))
+            }
         }
     }
 }
